@@ -51,6 +51,12 @@ CLAIMS = {
          "no guard, records exactly the replayed list and commits through the ordinary routine. Does not decide that replay lands in the same configuration "
          "from every state, nor the resumable part.",
          "path rules + who-may-write + call-graph reachability over clang AST facts (static analysis)"),
+ "C10": ("Decides that no constructor chain can call a member of a base sub-object before that sub-object is constructed (initialiser self-references x "
+         "call-graph reachability), that every scalar member of every library record is definitely initialised by every constructor, that there is no "
+         "mutable static / thread-local state, that user-provided copy/move constructors copy every base and member from the corresponding part, and that "
+         "self-referential objects (reference or pointer into the same complete object) are not copied member-wise. Does not decide behavioural equality "
+         "of two runs as such.",
+         "constructor-initialiser / record-layout rules + call-graph reachability over clang AST facts (static analysis)"),
  "C12": ("Decides tie-breaking operators (left half kept on ties), the utility composition formulas of nested composite / orthogonal regions as expression "
          "shape, same-kind delegation of reports on the way down, rank masking, the shape of the cumulative walk (skip iff cursor >= utility, one rng.next() "
          "per resolution, rng.next called nowhere else, the arrays walked are the arrays summed), that the walk cannot return none, and the anonymous-head "
